@@ -629,7 +629,7 @@ func TestCheck(t *testing.T) {
 	defer run.Finish()
 	run.Rule("(layout, operation selecting a protected coordinate) x every set P of <= k protected coordinate groups x ALL decision functions P -> {allow, deny} x mode {post-fetch authorizer, pre-fetch batch authorizer, both}; distinct = distinct (operation, P, decision, mode, outcome)")
 	run.Assume("protection and decisions are closed under the interface relation (I.f decided like every implementer's f)",
-		"reference = R1 with every denied coordinate resolving to an error; protected coordinates are never keys or @requires inputs",
+		"reference = R1 with every denied coordinate resolving to an error; protected coordinates are never keys; as @requires inputs they occur only in the required-only cases, where just the request clause is judged",
 		"defer / subscription transports are exercised by C10 / not here")
 	maxP := vk.Pick(run, 2, 3)
 	run.Bound("max_protected_groups", maxP)
@@ -647,6 +647,8 @@ func TestCheck(t *testing.T) {
 		Aborting    bool   `json:"aborting"`
 		First       string `json:"first"`
 		FirstDenied bool   `json:"first_denied"`
+		// required-only cases
+		RequiredOnly bool `json:"required_only"`
 	}
 	var rin *replayIn
 	if run.Replay != "" {
@@ -786,6 +788,11 @@ func TestCheck(t *testing.T) {
 		}
 	}
 	if rin == nil {
+		requiredOnly(t, run, "", "", "")
+	} else if rin.RequiredOnly && len(rin.Deny) == 1 {
+		requiredOnly(t, run, rin.Op, rin.Mode, rin.Deny[0])
+	}
+	if rin == nil {
 		abortingFrames(t, run, nil)
 	} else if rin.Aborting {
 		abortingFrames(t, run, &abortReplay{rin.Layout, rin.Op, rin.Mode, rin.First, rin.FirstDenied})
@@ -799,6 +806,82 @@ func TestCheck(t *testing.T) {
 // field. Nothing selected below the denied coordinate may appear in any frame.
 // Generated: first sibling x denied object field with a nested @defer x outer
 // fragment deferred or not x mode.
+// requiredOnly: a protected coordinate that the client does NOT select - it is
+// fetched only because a field of another subgraph @requires it (S-req: weight,
+// price, dims feed shipping / volume / summary; S-nreq: zip behind an entity
+// boundary). With pre-fetch authorization the request that only fetches denied
+// coordinates is never sent. Only this clause is judged here (what the dependant
+// field should then be is not defined by the property).
+func requiredOnly(t *testing.T, run *vk.Run, onlyOp, onlyMode, onlyDeny string) {
+	if onlyOp == "" && run.Shard() != 0 {
+		return
+	}
+	type rcase struct {
+		s      *fedlab.Supergraph
+		u      *fedlab.Universe
+		where  map[string]int
+		n      int
+		prot   []string
+		ops    []string
+		family string
+	}
+	req, nreq := fedlab.SReq(), fedlab.SNReq()
+	cases := []rcase{
+		{req, fedlab.SReqUniverse(req), map[string]int{"Item.shipping": 1, "Item.volume": 1, "Item.summary": 1, "Query.boxes": 1, "Box.size": 1, "Box.content": 1, "Item.weight": 2, "Item.dims": 2, "Maker.label": 2, "Item.spec": 2, "Item.parts": 2}, 3,
+			[]string{"Item.weight", "Item.dims", "Item.volume"},
+			[]string{`{items {shipping}}`, `{items {id volume}}`, `{items {summary}}`, `{item(id: "i1") {shipping summary}}`, `{boxes {content {shipping}}}`}, "S-req"},
+		{nreq, fedlab.SNReqUniverse(nreq), map[string]int{"Address.zip": 1, "Address.city": 1, "Account.label": 2, "Account.badge": 2}, 3,
+			[]string{"Address.zip", "Address.city", "Account.address"},
+			[]string{`{accounts {label}}`, `{accounts {badge name}}`, `{account {label badge}}`}, "S-nreq"},
+	}
+	for _, c := range cases {
+		keyFields := keyFieldSet(c.s)
+		l := fedlab.ByType(c.s, c.n, func(r fedlab.FieldRef) int { return c.where[r.String()] }, "base3")
+		for _, p := range c.prot {
+			parts := strings.SplitN(p, ".", 2)
+			lab, err := fedlab.NewLab(l, c.u, fedlab.LabOptions{Fields: plan.FieldConfigurations{{TypeName: parts[0], FieldName: parts[1], HasAuthorizationRule: true}}})
+			if err != nil {
+				t.Fatalf("lab: %v", err)
+			}
+			for _, q := range c.ops {
+				for _, mode := range []string{"pre", "both"} {
+					if onlyOp != "" && (onlyOp != q || onlyMode != mode || onlyDeny != p) {
+						continue
+					}
+					az := &authz{deny: map[string]bool{p: true}}
+					run.Eval(1)
+					run.Count("required_only_cases", 1)
+					_, reqs, _ := lab.Exec(q, "", nil, authOptions(az, mode)...)
+					sent := 0
+					for _, r := range reqs {
+						coords, opType := rootCoords(r)
+						allDenied, n := true, 0
+						for _, co := range coords {
+							if keyFields[co] {
+								continue
+							}
+							n++
+							if co != p {
+								allDenied = false
+							}
+						}
+						if n > 0 && allDenied {
+							sent++
+							run.Violate(vk.Violation{Clause: "with pre-fetch authorization a subgraph request is not sent when all of its root fields are denied", Site: "request sent: " + opType + " (coordinate fetched only as a @requires input)", Class: mode + " / " + p,
+								Detail: fmt.Sprintf("layout %s\noperation %s\nprotected and denied %s (not selected by the client)\nmode %s\n%s %s (root fields %v)", l.String(), q, p, mode, r.Host, r.Query, coords),
+								Input:  map[string]any{"family": c.family, "required_only": true, "op": q, "mode": mode, "deny": []string{p}}})
+						}
+					}
+					if run.Outcome(fmt.Sprintf("reqonly|%s|%s|%s|%d|%d", q, p, mode, len(reqs), sent)) {
+						run.Sample(c.family+"/required-only/"+mode, map[string]any{"operation": q, "deny": p, "requests": len(reqs)})
+					}
+				}
+			}
+			lab.Close()
+		}
+	}
+}
+
 type abortReplay struct {
 	layout      []int
 	op, mode    string
